@@ -447,6 +447,62 @@ def assignAt (h : HashFns) (hv : Bool) (v : PyVal) (r : String) : List Nat → O
      | _ => .node l ks)
   | i :: p, .node l ks => .node l (modifyNth (assignAt h hv v r p) i ks)
 
+/-! ## `hash(o)` with the repair proposed for C16-F7 (fixes_proposed/C16-F7.diff)
+
+  `Program` keeps a class-level counter of `Constant.assign`/`reset` calls; every program stores
+  the value of the counter at the time its hash was cached (`hash_time`); `Program.__hash__`
+  recomputes the hash (`__compute_hash__`: `Function`, `Lambda`; a leaf has nothing to recompute)
+  when the counter has moved.  The recomputation calls `hash(child)`, so it is recursive.  The
+  implementation memoises the recomputed value; the model below is the value it returns once an
+  assignment has happened after the object was built. -/
+
+/-- the program classes whose `__hash__` recomputes the hash from the sub-programs when a constant
+    was assigned or reset since it was cached (fixes_proposed/C16-F7.diff): `Function`, `Lambda` -/
+def Lab.recomputes : Lab → Bool
+  | .pfun _ => true
+  | .plam => true
+  | _ => false
+
+mutual
+  /-- `hash(o)` with the repair, once `Constant.assign`/`reset` has been called after the hashes of
+      `o` were cached: `Function`/`Lambda` recompute from `hash(child)`, every other class
+      returns its cached field (a `Constant` refreshes its own field in `assign`/`reset`) -/
+  def hashAfter (h : HashFns) : Obj → Int
+    | .node l ks => if l.1.recomputes then nodeHash h l.1.key (hashAfterList h ks) 0 else l.2
+  def hashAfterList (h : HashFns) : List Obj → List Int
+    | [] => []
+    | k :: ks => hashAfter h k :: hashAfterList h ks
+end
+
+/-- `path` leads, through `Function`/`Lambda` objects only, to a constant whose own children (its
+    type) are not programs: what a path to a constant looks like in every program the
+    constructors can build -/
+def validAt : List Nat → Obj → Bool
+  | [], .node l ks =>
+    (match l.1 with | .pconst _ _ _ => true | _ => false) && ks.all (fun k => !k.label.1.recomputes)
+  | i :: p, .node l ks =>
+    l.1.recomputes && (match ks[i]? with | some k => validAt p k | none => false)
+
+/-- one `assign`/`reset` call: where, and the new fields of the constant -/
+structure Op where
+  path : List Nat
+  hasValue : Bool
+  val : PyVal
+  repr : String
+
+/-- a history of `assign`/`reset` calls, each on a constant of the program -/
+def runOps (h : HashFns) : List Op → Obj → Obj
+  | [], o => o
+  | op :: ops, o => runOps h ops (assignAt h op.hasValue op.val op.repr op.path o)
+
+def validOps (h : HashFns) : List Op → Obj → Bool
+  | [], _ => true
+  | op :: ops, o => validAt op.path o && validOps h ops (assignAt h op.hasValue op.val op.repr op.path o)
+
+/-- Python `hash(o)` for an object `o` on which `assign`/`reset` has been called at least once since
+    it was built: without the repair the field cached at construction, with it `hashAfter` -/
+def objHash (h : HashFns) (fx : Bool) (o : Obj) : Int := if fx then hashAfter h o else cached o
+
 /-! ## a concrete instance of the hash functions (used by the driver) -/
 
 def P61 : Int := 2305843009213693951
